@@ -308,10 +308,10 @@ static struct jclss jcClss[] = {
 
 	{ JCO_CLSS_Not,     jcUnaryOpPrint,jcNodeSExpr, "not",    "!",    13,JCO_LR },
 	{ JCO_CLSS_LogAnd,  jcBinOpPrint,  jcNodeSExpr, "and",    " && ", 4, JCO_LR },
-	{ JCO_CLSS_LogOr,   jcBinOpPrint,  jcNodeSExpr, "or",     " || ", 4, JCO_LR },
+	{ JCO_CLSS_LogOr,   jcBinOpPrint,  jcNodeSExpr, "or",     " || ", 3, JCO_LR },
 	{ JCO_CLSS_And,     jcBinOpPrint,  jcNodeSExpr, "and",    " & ", 7, JCO_LR },
-	{ JCO_CLSS_Or,      jcBinOpPrint,  jcNodeSExpr, "or",     " | ", 7, JCO_LR },
-	{ JCO_CLSS_XOr,      jcBinOpPrint,  jcNodeSExpr, "xor",     " ^ ", 7, JCO_LR },
+	{ JCO_CLSS_Or,      jcBinOpPrint,  jcNodeSExpr, "or",     " | ", 5, JCO_LR },
+	{ JCO_CLSS_XOr,      jcBinOpPrint,  jcNodeSExpr, "xor",     " ^ ", 6, JCO_LR },
 	{ JCO_CLSS_Equals,  jcBinOpPrint,  jcNodeSExpr, "equal",  " == ", 8, JCO_LR },
 	{ JCO_CLSS_NEquals, jcBinOpPrint,  jcNodeSExpr, "nequal", " != ", 8, JCO_LR },
 	{ JCO_CLSS_Assign,  jcBinOpPrint,  jcNodeSExpr, "assign", " = ",  1, JCO_RL },
